@@ -24,12 +24,13 @@ func init() {
 		StateDef: "engine tiny: distinct mutation-history prefixes of length <= 6 over the 12-symbol alphabet (out of 3257437); " +
 			"engine history: distinct (multiset of live points, last operation kind) signatures",
 		Engines: []props.Engine{
-			{Name: "history", Variant: "plain", Run: RunHistory, QuickRuns: 40000, Share: 0.6, MinThorough: 200000, RunTimeout: 60 * time.Second},
-			{Name: "tiny", Variant: "plain", Run: RunTiny, QuickRuns: 60000, Share: 0.4, MinThorough: 400000, RunTimeout: 60 * time.Second},
+			{Name: "history", Variant: "plain", Run: RunHistory, QuickRuns: 150000, Share: 0.6, MinThorough: 200000, RunTimeout: 60 * time.Second},
+			{Name: "tiny", Variant: "plain", Run: RunTiny, QuickRuns: 400000, Share: 0.4, MinThorough: 400000, RunTimeout: 60 * time.Second},
 		},
 		Real:        []string{"quadtree", "planar", "orb (Bound, Point)"},
 		Stub:        []string{},
 		Assumptions: []string{"distance ties may be broken either way", "KNearest is only called with k >= 1", "query boxes have min <= max", "Add(nil) is not part of the property"},
+		Spaces:      []props.Space{{}, {Name: "mutation-history prefixes of length 1-6 over the 12-symbol tiny alphabet", Total: 3257436}},
 		NonTrivial:  func(o *core.Outcome) bool { return o.Ops >= 3 },
 	})
 }
@@ -164,13 +165,35 @@ func (r *run) query(q *qt.Query) bool {
 	if r.t.Guard(api, func() { res = q.Exec(r.tr) }) {
 		return false
 	}
-	r.t.Logf("%v -> %v", q, res)
+	// hashed always, rendered only when the run is being kept (replay, samples)
+	h := uint64(q.Kind)<<8 | uint64(q.K)
+	if res.IsOne {
+		h = core.Mix(h, ptID(res.One))
+	} else {
+		for _, p := range res.Many {
+			h = core.Mix(h, ptID(p))
+		}
+	}
+	r.t.Hash(0xC11, h)
+	if r.t.Keep {
+		r.t.Note("%v -> %v", q, res)
+	}
 	if oracle, msg := r.m.Check(q, res); oracle != "" {
 		r.fail(oracle, api, "%v on live=%v: %s", q, r.m.Live, msg)
 		return false
 	}
 	r.t.Op()
 	return true
+}
+
+func ptID(p orb.Pointer) uint64 {
+	if x, ok := p.(*qt.Pt); ok && x != nil {
+		return uint64(x.ID) + 2
+	}
+	if p == nil {
+		return 1
+	}
+	return 0
 }
 
 // RunHistory: one long random history.
@@ -290,7 +313,7 @@ func RunTiny(t *core.T) {
 		if t.Failed() {
 			break
 		}
-		t.State64(hist)
+		t.StateIn(1, hist)
 		r.sweep()
 	}
 }
